@@ -74,7 +74,8 @@ class Exc:
 _UNSUPPORTED_PAT = re.compile(
     r"not (currently |yet )?supported|not (yet )?implemented|does not (support|accept)|only works|only defined|"
     r"unsupported|is not defined for|only supports|can only|not compatible with this|no longer supported|"
-    r"at the moment|currently, .* only works|expects two LinearOperators of the same size|are not positive definite",
+    r"at the moment|currently, .* only works|expects two LinearOperators of the same size|are not positive definite|"
+    r"should be LinearOperators or Tensors|must be a LinearOperator|does not allow a|only implemented for",
     re.I,
 )
 
@@ -88,7 +89,7 @@ def explicit_unsupported(exc: Exc):
         return False
     if exc.type == "NotImplementedError":
         return True
-    if exc.type in ("RuntimeError", "ValueError", "TypeError") and _UNSUPPORTED_PAT.search(exc.msg):
+    if exc.type in ("RuntimeError", "ValueError", "TypeError", "AttributeError", "NotPSDError") and _UNSUPPORTED_PAT.search(exc.msg):
         return True
     return False
 
